@@ -1,7 +1,7 @@
 from propcfg.common import *
 
 CFG = {
-    "disabled": True,
+    "disabled": False,
     "props": "Props/C02.v",
     "corr": ["Corr/StackCorr.v"],
     "engines": [("stack", [])],
